@@ -395,6 +395,15 @@ def _mirsym():
         spec=ssv.EncodeColumnSpec(), stubs=["xor_float::double::encode -> recorder of the float slice it is given"],
         assumptions=["a genuine float equal to the reserved NULL NaN bit pattern is outside the value domain"])
 
+    from .specs import ingestbuf as sib
+    for pid, tag in (("C13", "C13.b"), ("C01", "C01.h")):
+        add(f"{tag}/buffer_batches", pid, "mirsym", Q,
+            "ingest::buffer::Buffer::push_typed_cols called batch after batch (the table's open buffer): a column a batch does not mention is NULL for that batch, a column first seen late is NULL for all earlier rows, the sparse (NullableInt/NullableFloat) and mixed representations put every value in its own row, every column has Buffer.length rows",
+            ["ingest::buffer::Buffer::{push_typed_cols,extend_to_largest,len}", "ColumnBuffer::{null,push_ints,push_floats,push_nulls,push_val,len}", "IntColBuffer::push", "bitvec::BitVecMut::set"],
+            bounds="10 (quick) / 18 (thorough) fixed batch sequences of 1-3 batches over columns a,b,c with 1-9 rows per batch (dense Int/Float, Null(n), sparse Int/Float with fixed index sets, Mixed), values symbolic; HashMap<String,_> modelled as an association list iterated in insertion order (the real iteration order is unspecified)",
+            spec=sib.BufferBatchesSpec(), stubs=["HashMap<String,V> -> association list (entry/or_insert_with/values_mut/into_iter)"],
+            assumptions=["sparse index lists are strictly increasing and below the batch's row count (what event_buffer::ColumnBuffer::push produces)"])
+
 
 _mirsym()
 
